@@ -37,7 +37,7 @@ ASSUMPTIONS = [
     "gradient exactness is demanded for linear functions only (as stated); for general multilinear functions adaptive == static is demanded",
 ]
 PROBES = ["dim1", "dim2", "dim3", "point_on_vertex", "point_on_grid_line", "point_on_upper_boundary", "point_on_lower_boundary", "batch_revisits_cell",
-          "warm_batch", "partial_batch", "gradient_query", "linear_function", "shifted_base_point", "negative_indices", "query_buffer_reused_in_place", "external_values_mode", "known_vertices_reassigned", "vector_valued_function", "function_defined_on_box_only", "rejected_query_outside_box"]
+          "warm_batch", "partial_batch", "gradient_query", "linear_function", "shifted_base_point", "negative_indices", "query_buffer_reused_in_place", "external_values_mode", "known_vertices_reassigned", "vector_valued_function", "function_defined_on_box_only", "rejected_query_outside_box", "twin_instance_used_in_between"]
 
 
 def make_function(ch, d, linear):
@@ -354,7 +354,19 @@ def run_history_c41(ch, tr: Trace) -> None:
             return
         tr.op("outside", "answered", x.T.tolist(), changing=False)
 
-    ops = [Op("interpolate", 5, op_interp, core=True), Op("gradient", 3, op_grad), Op("outside", 1, op_outside, enabled=lambda: guarded)]
+    twin = [None]
+
+    def op_twin_noise():
+        """Another adaptive table (other function, same grid) queried in between: tables must not share state."""
+        if twin[0] is None:
+            twin[0] = pp.AdaptiveInterpolationTable(h.copy(), base_point=base.copy(), function=lambda *x: -3.5 + 0.0 * np.asarray(x[0], dtype=float) if vdim == 1 else np.full((vdim,) + np.shape(x[0]), -3.5), dim=vdim)
+        x, _ = draw_points(ch.rng(1, 3))
+        twin[0].interpolate(x.copy())
+        tr.probe("twin_instance_used_in_between")
+        tr.op("twin", "ok", x.T.tolist(), changing=False)
+        cache_invariants("queries on another adaptive table")
+
+    ops = [Op("interpolate", 5, op_interp, core=True), Op("gradient", 3, op_grad), Op("outside", 1, op_outside, enabled=lambda: guarded), Op("twin_noise", 1, op_twin_noise)]
     run_history(ch, tr, ops, 3, 16)
     tr.emit("end", int(adaptive._table._coords.shape[1]))
 
